@@ -2,7 +2,9 @@ package main
 
 import (
 	"go/ast"
+	"go/printer"
 	"go/token"
+	"strings"
 )
 
 // CoverageOrder: the declaration order of the LineCoverage enum (its numeric order is what
@@ -41,4 +43,235 @@ func init() {
 			"Definition cov_order : list string := " + coqStringList(names) + ".\n" +
 			"Definition cov_output : list string := " + coqStringList(letters) + ".\n"
 	}
+}
+
+// CoverageStates: what C27's model of BuildState copies, of the lock around the aggregation and of the flaky-retry
+// loop is regenerated from (Model/C27_states.v interprets these definitions; nothing here is only compared).
+//
+//	src/core/state.go         NewBuildState (which Coverage maps exist up front), Copy (a struct copy), the
+//	                          Coverage / progress fields, LogTestResult (the lock held around Aggregate)
+//	src/core/test_results.go  the TestCoverage struct and Aggregate, statement by statement
+//	src/test/test_step.go     doFlakeRun (how an attempt's coverage is combined with the earlier ones)
+func init() {
+	targets["CoverageStates"] = func() string {
+		fsetS, state := parseFile("src/core/state.go")
+		fsetR, results := parseFile("src/core/test_results.go")
+		fsetT, step := parseFile("src/test/test_step.go")
+
+		// --- struct TestCoverage: every field must be a map (a reference that struct copies share)
+		var fields []string
+		for _, fld := range covStruct(results, "TestCoverage").Fields.List {
+			kind := covSrc(fsetR, fld.Type)
+			if _, ok := fld.Type.(*ast.MapType); ok {
+				kind = "map"
+			}
+			for _, n := range fld.Names {
+				fields = append(fields, "("+coqString(n.Name)+", "+coqString(kind)+")")
+			}
+		}
+
+		// --- struct BuildState: Coverage by value, progress behind a pointer
+		byValue, pointerFields := false, []string{}
+		for _, fld := range covStruct(state, "BuildState").Fields.List {
+			_, star := fld.Type.(*ast.StarExpr)
+			for _, n := range fld.Names {
+				if n.Name == "Coverage" {
+					id, ok := fld.Type.(*ast.Ident)
+					if !star && !(ok && id.Name == "TestCoverage") {
+						failShape("BuildState.Coverage has type %s", covSrc(fsetS, fld.Type))
+					}
+					byValue = !star
+				}
+				if star {
+					pointerFields = append(pointerFields, n.Name)
+				}
+			}
+		}
+
+		// --- NewBuildState: `Coverage: TestCoverage{Files: map[..]..{}}` inside the state literal
+		initOf := map[string]bool{}
+		ast.Inspect(findFunc(state, "", "NewBuildState").Body, func(n ast.Node) bool {
+			kv, ok := n.(*ast.KeyValueExpr)
+			if !ok {
+				return true
+			}
+			if k, ok := kv.Key.(*ast.Ident); !ok || k.Name != "Coverage" {
+				return true
+			}
+			cl, ok := kv.Value.(*ast.CompositeLit)
+			if !ok || covSrc(fsetS, cl.Type) != "TestCoverage" {
+				failShape("NewBuildState: Coverage is initialised with %s", covSrc(fsetS, kv.Value))
+			}
+			for _, e := range cl.Elts {
+				ekv, ok := e.(*ast.KeyValueExpr)
+				if !ok {
+					failShape("NewBuildState: positional TestCoverage literal")
+				}
+				m, ok := ekv.Value.(*ast.CompositeLit)
+				if _, isMap := m.Type.(*ast.MapType); !ok || !isMap || len(m.Elts) != 0 {
+					failShape("NewBuildState: Coverage.%s is not an empty map literal", covSrc(fsetS, ekv.Key))
+				}
+				initOf[covSrc(fsetS, ekv.Key)] = true
+			}
+			return false
+		})
+
+		// --- Copy: `ret := &BuildState{}; *ret = *state; ret.x = ...; return ret`
+		var resets []string
+		body := findFunc(state, "BuildState", "Copy").Body.List
+		if len(body) < 3 || covSrc(fsetS, body[0]) != "ret := &BuildState{}" || covSrc(fsetS, body[1]) != "*ret = *state" ||
+			covSrc(fsetS, body[len(body)-1]) != "return ret" {
+			failShape("BuildState.Copy is not a struct copy")
+		}
+		for _, s := range body[2 : len(body)-1] {
+			as, ok := s.(*ast.AssignStmt)
+			if !ok || len(as.Lhs) != 1 || !strings.HasPrefix(covSrc(fsetS, as.Lhs[0]), "ret.") {
+				failShape("BuildState.Copy: unexpected statement %s", covSrc(fsetS, s))
+			}
+			resets = append(resets, strings.TrimPrefix(covSrc(fsetS, as.Lhs[0]), "ret."))
+		}
+
+		// --- LogTestResult: [X.Lock(); defer X.Unlock();] state.Coverage.Aggregate(coverage) as the last statements
+		var lockPath []string
+		body = findFunc(state, "BuildState", "LogTestResult").Body.List
+		if n := len(body); n < 2 || covSrc(fsetS, body[n-1]) != "state.Coverage.Aggregate(coverage)" {
+			failShape("LogTestResult does not end with state.Coverage.Aggregate(coverage)")
+		}
+		for i, s := range body[:len(body)-1] {
+			src := covSrc(fsetS, s)
+			switch {
+			case strings.HasPrefix(src, "state.logResult("):
+			case strings.HasSuffix(src, ".Lock()") && i+2 == len(body)-1 &&
+				covSrc(fsetS, body[i+1]) == "defer "+strings.TrimSuffix(src, ".Lock()")+".Unlock()":
+				lockPath = strings.Split(strings.TrimSuffix(src, ".Lock()"), ".")
+			case strings.HasPrefix(src, "defer ") && lockPath != nil && i+1 == len(body)-1:
+			default:
+				failShape("LogTestResult: unexpected statement %s", src)
+			}
+		}
+		lockShared := false
+		if len(lockPath) >= 3 && lockPath[0] == "state" {
+			for _, p := range pointerFields {
+				lockShared = lockShared || p == lockPath[1]
+			}
+		}
+
+		// --- Aggregate, statement by statement
+		var prog []string
+		for _, s := range findFunc(results, "TestCoverage", "Aggregate").Body.List {
+			src := strings.Join(strings.Fields(covSrc(fsetR, s)), " ")
+			switch {
+			case src == "if coverage.Tests == nil { coverage.Tests = map[BuildLabel]map[string][]LineCoverage{} }":
+				prog = append(prog, `LazyMake "Tests"`)
+			case src == "if coverage.Files == nil { coverage.Files = map[string][]LineCoverage{} }":
+				prog = append(prog, `LazyMake "Files"`)
+			case src == "for label, c := range cov.Tests { coverage.Tests[label] = c }":
+				prog = append(prog, "AssignTests")
+			case src == "for filename, c := range cov.Files { coverage.Files[filename] = MergeCoverageLines(coverage.Files[filename], c) }":
+				prog = append(prog, "MergeFiles")
+			case strings.HasPrefix(src, "coverage.") && strings.HasSuffix(src, ".Lock()"):
+				prog = append(prog, "LockSelf "+coqString(strings.TrimSuffix(strings.TrimPrefix(src, "coverage."), ".Lock()")))
+			case strings.HasPrefix(src, "defer coverage.") && strings.HasSuffix(src, ".Unlock()"):
+				prog = append(prog, "UnlockSelfDeferred "+coqString(strings.TrimSuffix(strings.TrimPrefix(src, "defer coverage."), ".Unlock()")))
+			default:
+				failShape("TestCoverage.Aggregate: unexpected statement %s", src)
+			}
+		}
+
+		// --- doFlakeRun: coverage := &core.TestCoverage{}; for flakes := 1; flakes <= Flakiness; flakes++ {
+		//       testSuite, cov := doTest(..); ...; coverage.Aggregate(cov); if testSuite.TestCases.AllSucceeded() {..; break} }
+		combine, breaks, loops, fresh := "", false, false, false
+		flake := findFunc(step, "", "doFlakeRun").Body.List
+		if covSrc(fsetT, flake[len(flake)-1]) != "return results, coverage" {
+			failShape("doFlakeRun does not return results, coverage")
+		}
+		for _, s := range flake {
+			if covSrc(fsetT, s) == "coverage := &core.TestCoverage{}" {
+				fresh = true
+			}
+			loop, ok := s.(*ast.ForStmt)
+			if !ok {
+				continue
+			}
+			if loops {
+				failShape("doFlakeRun has more than one loop")
+			}
+			loops = covSrc(fsetT, loop.Init) == "flakes := 1" && covSrc(fsetT, loop.Cond) == "flakes <= int(target.Test.Flakiness)" &&
+				covSrc(fsetT, loop.Post) == "flakes++"
+			if !loops {
+				failShape("doFlakeRun: unexpected loop header")
+			}
+			ran := false
+			for _, ls := range loop.Body.List {
+				src := strings.Join(strings.Fields(covSrc(fsetT, ls)), " ")
+				switch {
+				case strings.HasPrefix(src, "testSuite, cov := doTest(state, target, runRemotely, 1)"):
+					ran = true
+				case src == "coverage.Aggregate(cov)" && ran && combine == "":
+					combine = "CombAggregate"
+				case src == "coverage = cov" && ran && combine == "":
+					combine = "CombAssign"
+				case strings.Contains(src, "cov)") || strings.Contains(src, "cov.") || strings.Contains(src, "= cov") || strings.Contains(src, "coverage"):
+					failShape("doFlakeRun: unexpected use of the attempt's coverage: %s", src)
+				case strings.HasPrefix(src, "if testSuite.TestCases.AllSucceeded() {") && strings.HasSuffix(src, "break }") && combine != "":
+					breaks = true
+				}
+			}
+		}
+		if !fresh || !loops || combine == "" {
+			failShape("doFlakeRun: loop / accumulator / combination not recognised")
+		}
+
+		b := func(x bool) string {
+			if x {
+				return "true"
+			}
+			return "false"
+		}
+		return genHeader +
+			"(* struct TestCoverage: field name, kind (map = a reference that struct copies share) *)\n" +
+			"Definition coverage_fields : list (string * string) := [" + strings.Join(fields, "; ") + "].\n" +
+			"(* BuildState.Coverage is held by value; BuildState.Copy is `*ret = *state` followed by resets of these fields *)\n" +
+			"Definition coverage_by_value : bool := " + b(byValue) + ".\n" +
+			"Definition copy_resets : list string := " + coqStringList(resets) + ".\n" +
+			"(* NewBuildState: the maps of Coverage that exist before the first Aggregate *)\n" +
+			"Definition newstate_init_tests : bool := " + b(initOf["Tests"]) + ".\n" +
+			"Definition newstate_init_files : bool := " + b(initOf["Files"]) + ".\n" +
+			"(* TestCoverage.Aggregate, statement by statement *)\n" +
+			"Inductive agg_stmt := LazyMake (field : string) | AssignTests | MergeFiles | LockSelf (field : string) | UnlockSelfDeferred (field : string).\n" +
+			"Definition aggregate_prog : list agg_stmt := [" + strings.Join(prog, "; ") + "].\n" +
+			"(* LogTestResult: the mutex held around state.Coverage.Aggregate ([] = none), and whether the path to it\n" +
+			"   leaves the BuildState through a pointer field (then all copies of the state lock the same mutex) *)\n" +
+			"Definition log_lock : list string := " + coqStringList(lockPath) + ".\n" +
+			"Definition log_lock_behind_pointer : bool := " + b(lockShared) + ".\n" +
+			"(* doFlakeRun: how the coverage of one attempt is combined with that of the earlier attempts *)\n" +
+			"Inductive flake_comb := CombAggregate | CombAssign.\n" +
+			"Definition flake_combine : flake_comb := " + combine + ".\n" +
+			"Definition flake_break_on_success : bool := " + b(breaks) + ".\n"
+	}
+}
+
+func covStruct(f *ast.File, name string) *ast.StructType {
+	for _, d := range f.Decls {
+		gd, ok := d.(*ast.GenDecl)
+		if !ok || gd.Tok != token.TYPE {
+			continue
+		}
+		for _, s := range gd.Specs {
+			ts := s.(*ast.TypeSpec)
+			if st, ok := ts.Type.(*ast.StructType); ok && ts.Name.Name == name {
+				return st
+			}
+		}
+	}
+	failShape("struct %s not found", name)
+	return nil
+}
+
+func covSrc(fset *token.FileSet, n ast.Node) string {
+	var b strings.Builder
+	if err := printer.Fprint(&b, fset, n); err != nil {
+		failShape("cannot print node: %v", err)
+	}
+	return b.String()
 }
